@@ -56,6 +56,15 @@ func callArgParams(p *packages.Package, body ast.Node, lparen token.Pos, text st
 	}
 	var out []clauseParam
 	for _, name := range freeIdents(e) {
+		if name == "recv" {
+			// the receiver expression of a method call (interface method calls have no arg0)
+			if sel, ok := call.Fun.(*ast.SelectorExpr); ok {
+				if t := p.TypesInfo.TypeOf(sel.X); t != nil {
+					out = append(out, clauseParam{Name: "recv", Type: t, Kind: "arg"})
+				}
+			}
+			continue
+		}
 		var k int
 		if n, err := fmt.Sscanf(name, "arg%d", &k); err == nil && n == 1 && fmt.Sprintf("arg%d", k) == name && k < len(argTypes) && argTypes[k] != nil {
 			out = append(out, clauseParam{Name: name, Type: argTypes[k], Kind: "arg"})
